@@ -4,7 +4,7 @@ CONSTANTS
   Cancellers = {"k1"}
   Periodic = FALSE
   DeleteByName = FALSE
-  ClaimIgnoresCancel = FALSE
+  ClaimIgnoresCancel = TRUE
   DropOnClaim = FALSE
   MaxRuns = 1
 INVARIANTS TypeOK AtMostOnce NoOverlap NoPanic NoLostRun NotDropped CancelBranchNoRun CancelOkNeverRuns NameReusable NameSlotUnique SuccessorReachable LockFreeAtEnd
